@@ -196,18 +196,6 @@ Section EditSpecProofs.
 
   (* ---- accounting -------------------------------------------------------------------- *)
 
-  Fixpoint dropped (es : list edit) : nat :=
-    match es with
-    | [] => 0
-    | e :: es' => (match eop e with Drop | Replace => length (X e) | _ => 0 end) + dropped es'
-    end.
-
-  Fixpoint copied (es : list edit) : nat :=
-    match es with
-    | [] => 0
-    | e :: es' => (match eop e with Copy | Replace => length (Y e) | _ => 0 end) + copied es'
-    end.
-
   Lemma kept_app : forall es1 es2 : list edit, kept (es1 ++ es2) = kept es1 + kept es2.
   Proof. induction es1; intros; cbn; [reflexivity|]. rewrite IHes1. lia. Qed.
 
@@ -249,6 +237,58 @@ Section EditSpecProofs.
       + destruct H as (l' & r' & -> & -> & H). destruct (IH _ _ H) as (c & Hc & H1 & H2).
         exists c. repeat split; [assumption | now apply SubseqR_app_l | now apply SubseqR_app_l].
   Qed.
+
+  (* ---- the general reading ------------------------------------------------------------ *)
+
+  Lemma Valid_Exec : forall es l r, Valid l r es -> Exec eqb l r es.
+  Proof.
+    induction es as [|e es IH]; intros l r H; cbn in *; [exact H|].
+    destruct (eop e).
+    - destruct H as (l' & -> & _ & H). eauto.
+    - destruct H as (l' & y & r' & -> & -> & _ & Hf & H). eauto 8.
+    - destruct H as (r' & -> & _ & H). eauto.
+    - destruct H as (l' & r' & -> & -> & H). eauto 6.
+  Qed.
+
+  (* emptying the unused fields turns any executable script into a Valid one that keeps, drops
+     and copies the same numbers of elements *)
+  Lemma Exec_clean : forall es l r,
+      Exec eqb l r es ->
+      Valid l r (map clean es) /\ kept (map clean es) = kept es /\
+      dropped (map clean es) = dropped es /\ copied (map clean es) = copied es.
+  Proof.
+    induction es as [|e es IH]; intros l r H; cbn [map Exec] in *.
+    - cbn. auto.
+    - unfold clean at 1 3 5 7. cbn [Valid kept dropped copied].
+      destruct (eop e) eqn:He; cbn [eop X Y]; rewrite ?He.
+      + destruct H as (l' & -> & H). destruct (IH _ _ H) as (Hv & -> & -> & ->). eauto 8.
+      + destruct H as (l' & y & r' & -> & -> & Hf & H). destruct (IH _ _ H) as (Hv & -> & -> & ->).
+        repeat split; auto. exists l', y, r'. auto 6.
+      + destruct H as (r' & -> & H). destruct (IH _ _ H) as (Hv & -> & -> & ->). eauto 8.
+      + destruct H as (l' & r' & -> & -> & H). destruct (IH _ _ H) as (Hv & -> & -> & ->). eauto 8.
+  Qed.
+
+  Theorem Exec_common_subseq : forall es l r,
+      Exec eqb l r es ->
+      exists c, length c = kept es /\ Subseq c l /\ SubseqB eqb c r.
+  Proof.
+    intros es l r H. destruct (Exec_clean es l r H) as (Hv & Hk & _).
+    destruct (Valid_common_subseq _ _ _ Hv) as (c & Hc & H1 & H2).
+    exists c. repeat split; [congruence | assumption | assumption].
+  Qed.
+
+  (* |lhs| = kept + dropped, |rhs| = kept + copied: so the size of the change is
+     |lhs| + |rhs| - 2 kept, and keeping the most is changing the least *)
+  Lemma Exec_lengths : forall es l r,
+      Exec eqb l r es -> length l = kept es + dropped es /\ length r = kept es + copied es.
+  Proof.
+    intros es l r H. destruct (Exec_clean es l r H) as (Hv & Hk & Hd & Hc).
+    destruct (Valid_lengths _ _ _ Hv). lia.
+  Qed.
+
+  Lemma Exec_cost : forall es l r,
+      Exec eqb l r es -> cost es + 2 * kept es = length l + length r.
+  Proof. intros es l r H. destruct (Exec_lengths es l r H). unfold cost. lia. Qed.
 
   (* ---- shape ------------------------------------------------------------------------- *)
 
